@@ -14,6 +14,12 @@
 //
 //	<ret>|<slice>|<level>|<size>|<id:height,...>|<level0 ids>/<level1 ids>/...
 //
+// An op prefixed with '~' is UNOBSERVED ("sparse observation" histories: a result cached inside the
+// list and invalidated too rarely stays invisible when the full state is read after every op):
+// the harness then calls neither AsSlice nor Len nor Cap; it prints "<ret>|~|<h>" where h is the tower
+// height of the node an Insert created (read from the pointer dump, which calls no method of the
+// list; the dump is also what keeps the numbering of the nodes in step), empty for other ops.
+//
 // Node identities are numbers in order of creation (1,2,...): a pointer is numbered the first
 // time it shows up in a dump (several new ones at once, after FromSlice, in order of their tags).
 //
@@ -105,6 +111,65 @@ type idmap struct {
 	next int
 }
 
+// number gives the pointers not seen before their identities, in order of their tags (creation
+// order); returns the heights of the newly numbered nodes.
+func number(im *idmap, chains [][]nodeView) []int {
+	type fresh struct {
+		id     any
+		tag, h int
+	}
+	var fr []fresh
+	seen := map[any]bool{}
+	for _, ch := range chains {
+		for _, n := range ch {
+			if _, ok := im.ids[n.id]; !ok && !seen[n.id] {
+				seen[n.id] = true
+				fr = append(fr, fresh{n.id, n.tag, n.h})
+			}
+		}
+	}
+	sort.SliceStable(fr, func(i, j int) bool { return fr[i].tag < fr[j].tag })
+	var hs []int
+	for _, f := range fr {
+		im.ids[f.id] = im.next
+		im.next++
+		hs = append(hs, f.h)
+	}
+	return hs
+}
+
+type nodeView struct {
+	id     any
+	tag, h int
+}
+
+func views(sl *list.SkipList[kv]) (level, size int, chains [][]nodeView, broken []string) {
+	d := sl.VerifDump()
+	chains = make([][]nodeView, len(d.Chains))
+	for i, ch := range d.Chains {
+		for _, n := range ch {
+			chains[i] = append(chains[i], nodeView{n.ID, n.Val.Tag, n.Height})
+		}
+	}
+	return d.Level, d.Size, chains, d.Broken
+}
+
+// unobserved keeps the numbering in step and returns the height of the single new node (0 if
+// there is not exactly one); it reads the pointers only.
+func unobserved(sl *list.SkipList[kv], im *idmap) (h int) {
+	defer func() {
+		if r := recover(); r != nil {
+			h = -1
+		}
+	}()
+	_, _, chains, _ := views(sl)
+	hs := number(im, chains)
+	if len(hs) == 1 {
+		return hs[0]
+	}
+	return 0
+}
+
 // state renders "<slice>|<level>|<size>|<heights>|<towers>" of the current list.
 func state(sl *list.SkipList[kv], im *idmap) (s string) {
 	defer func() {
@@ -112,44 +177,25 @@ func state(sl *list.SkipList[kv], im *idmap) (s string) {
 			s = "panic-in-observer"
 		}
 	}()
-	d := sl.VerifDump()
-	// number the pointers not seen before, in order of their tags (creation order)
-	type fresh struct {
-		id  any
-		tag int
-	}
-	var fr []fresh
-	seen := map[any]bool{}
-	for _, ch := range d.Chains {
-		for _, n := range ch {
-			if _, ok := im.ids[n.ID]; !ok && !seen[n.ID] {
-				seen[n.ID] = true
-				fr = append(fr, fresh{n.ID, n.Val.Tag})
-			}
-		}
-	}
-	sort.SliceStable(fr, func(i, j int) bool { return fr[i].tag < fr[j].tag })
-	for _, f := range fr {
-		im.ids[f.id] = im.next
-		im.next++
-	}
+	level, size, chains, broken := views(sl)
+	number(im, chains)
 	var b strings.Builder
-	if d.Broken[0] == "cycle" { // AsSlice would not terminate
+	if broken[0] == "cycle" { // AsSlice would not terminate
 		b.WriteString("!cycle")
 	} else {
 		b.WriteString(showSlice(sl.AsSlice()))
 	}
-	fmt.Fprintf(&b, "|%d|%d|", d.Level, d.Size)
-	for i, n := range d.Chains[0] {
+	fmt.Fprintf(&b, "|%d|%d|", level, size)
+	for i, n := range chains[0] {
 		if i > 0 {
 			b.WriteByte(',')
 		}
-		fmt.Fprintf(&b, "%d:%d", im.ids[n.ID], n.Height)
+		fmt.Fprintf(&b, "%d:%d", im.ids[n.id], n.h)
 	}
 	b.WriteByte('|')
 	top := 0
-	for i, ch := range d.Chains {
-		if len(ch) > 0 || d.Broken[i] != "" {
+	for i, ch := range chains {
+		if len(ch) > 0 || broken[i] != "" {
 			top = i + 1
 		}
 	}
@@ -157,14 +203,14 @@ func state(sl *list.SkipList[kv], im *idmap) (s string) {
 		if i > 0 {
 			b.WriteByte('/')
 		}
-		for j, n := range d.Chains[i] {
+		for j, n := range chains[i] {
 			if j > 0 {
 				b.WriteByte(',')
 			}
-			b.WriteString(strconv.Itoa(im.ids[n.ID]))
+			b.WriteString(strconv.Itoa(im.ids[n.id]))
 		}
-		if d.Broken[i] != "" {
-			b.WriteString("!" + d.Broken[i])
+		if broken[i] != "" {
+			b.WriteString("!" + broken[i])
 		}
 	}
 	return b.String()
@@ -257,6 +303,19 @@ func history(line string, out *bufio.Writer) {
 	im := &idmap{ids: map[any]int{}, next: 1}
 	fmt.Fprintf(out, "H %d\n", len(ops))
 	for _, op := range ops {
+		op = strings.TrimSpace(op)
+		if strings.HasPrefix(op, "~") { // unobserved: return value only (+ the new tower's height)
+			op = strings.TrimSpace(op[1:])
+			ret := doOp(&sl, cmp, op)
+			h := unobserved(sl, im)
+			out.WriteString(ret)
+			out.WriteString("|~|")
+			if op[0] == 'I' {
+				out.WriteString(strconv.Itoa(h))
+			}
+			out.WriteByte('\n')
+			continue
+		}
 		ret := doOp(&sl, cmp, op)
 		out.WriteString(ret)
 		out.WriteByte('|')
